@@ -87,8 +87,9 @@ CLAIMED = {
              "flag (never a wrapped value), that the flag is raised only when no exact i64 result exists (one documented "
              "conservative case), that NULL rows raise nothing, that expression trees evaluate to their exact integer value, and "
              "that per-partition checked SUM followed by checked merging over ANY merge tree gives the exact sum or Overflow "
-             "(guard: no partial sum equals the i64::MAX sentinel; refutation witness included). i64::MIN % -1 is proved to be "
-             "the only panic. The model is tied to the Rust kernels and to LocustDB::run_query by a differential run on every check.",
+             "(guard: no partial sum equals the i64::MAX sentinel; refutation witness included). No operation can panic "
+             "(i64::MIN % -1 = 0 after the wrapping_rem fix). The model is tied to the Rust kernels and to LocustDB::run_query by a "
+             "differential run on every check.",
         note="Planner choice of checked vs unchecked operators is covered only by the API-level differential (no registry "
              "translator). Trusted: Coq kernel, extraction, OCaml/Rust glue, the Rust reference evaluator.",
         technique="Coq proof over an executable model of the checked-arithmetic kernels + kernel-level and API-level differential correspondence",
@@ -126,7 +127,8 @@ CLAIMED = {
              "limit-prefix of the stable merge (sorted, permutation of the inputs); merge_keep carries the other columns row-aligned; "
              "the relation `topk` (sorted, min(k,n) rows, nothing smaller left out, ties free) is preserved by merging and holds for "
              "sort-then-cut partitions, hence for ANY merge tree; without ORDER BY any tree yields the ingestion-order prefix; the "
-             "final slice returns rows offset+1..offset+limit when offset <= rows and its totality is refuted (F5).",
+             "final slice is total, returns rows offset+1..offset+limit (fewer or none when short) and equals the LIMIT/OFFSET window "
+             "of the specification; limit + offset saturates (both after fix 0df51a0).",
         note="top_n's heap (heap_replace is modelled and differentially tested, no heap-invariant proof), partition / subpartition / "
              "merge_partitioned for multi-key sorts (modelled and differentially tested, not proved), NULL placement by the "
              "comparators and per-partition sorting are covered by the kernel and API differentials against Model/QuerySpec.v only. "
